@@ -3,7 +3,7 @@
             observed exit class of `mockery showconfig` on that file)
    lcase = (a v3 tree, observed exit class of `mockery showconfig` on it)  - ties the key /
            shape sets of the loader model to the real strict loader. *)
-From Coq Require Import ZArith.
+From Coq Require Export ZArith.
 From Mk Require Import Lib.Bytes Misc.Migrate.
 
 Definition leaf_eqb (a b : yv) : bool :=
@@ -37,6 +37,32 @@ Definition subset (a b : list (path * yv)) : bool := forallb (fun e => existsb (
 Definition same_leaves (a b : list (path * yv)) : bool :=
   Nat.eqb (length a) (length b) && subset a b && subset b a.
 
+(* the same tree up to the order of mapping entries (keys are unique in both: the model's by
+   construction / wf_root, the observed one's because it comes from a parsed YAML document):
+   same number of entries and every entry of [a] is in [b] with an equal value *)
+Fixpoint yv_eqb (a b : yv) : bool :=
+  match a, b with
+  | YNull, YNull => true
+  | YBool x, YBool y => Bool.eqb x y
+  | YInt x, YInt y => Z.eqb x y
+  | YStr x, YStr y => seqb x y
+  | YList la, YList lb =>
+    Nat.eqb (length la) (length lb) &&
+    (fix go (la lb : list yv) : bool :=
+       match la, lb with
+       | [], [] => true
+       | x :: ta, y :: tb => yv_eqb x y && go ta tb
+       | _, _ => false
+       end) la lb
+  | YMap ma, YMap mb =>
+    Nat.eqb (length ma) (length mb) &&
+    forallb (fun e => match assoc (fst e) mb with
+                      | Some v' => yv_eqb (snd e) v'
+                      | None => false
+                      end) ma
+  | _, _ => false
+  end.
+
 Inductive obs := OOk | OErr | OPanic.
 
 Definition lres_eqb (l : lresult) (o : obs) : bool :=
@@ -47,11 +73,15 @@ Definition lres_eqb (l : lresult) (o : obs) : bool :=
 
 Record case := { c_in : v2root; c_exit : obs; c_out : option yv; c_load : option obs }.
 
+(* known-finding classes the input belongs to (authoritative for the classification) *)
+Definition guards (c : case) : bool := negb (v2_merge_free (c_in c)).
+
 (* 0 = model and implementation agree; otherwise which observable differs *)
 Definition check_case (c : case) : nat :=
+  if guards c then 5 else                                          (* main stream stays outside C19-merge-key *)
   match migrate (c_in c), c_exit c, c_out c with
   | MOk t, OOk, Some o =>
-    if negb (same_leaves (flatten t) (flatten o)) then 1          (* written tree *)
+    if negb (yv_eqb t o) then 1                                    (* written tree *)
     else match c_load c with
          | Some l => if lres_eqb (load o) l then 0 else 2          (* loader verdict on it *)
          | None => 0
@@ -76,6 +106,29 @@ Definition explain (c : case) :=
   | MOk t, None => (check_case c, flatten t, [], None)
   | MDecodeErr, _ => (check_case c, [], [], None)
   end.
+
+(* witness stream of known finding C19-merge-key: the input is in the class, and what is read back
+   from the written file (PyYAML; None = does not parse) and the loader's verdict are those of
+   the encoder/reader model [reread] *)
+Definition check_wcase (c : case) : bool :=
+  guards c &&
+  match migrate (c_in c), c_exit c with
+  | MOk t, OOk =>
+    match reread t, c_out c with
+    | Some t', Some o =>
+      yv_eqb t' o &&
+      match c_load c with Some l => lres_eqb (load t') l | None => false end
+    | None, None => match c_load c with Some OErr => true | _ => false end
+    | _, _ => false
+    end
+  | _, _ => false
+  end.
+Fixpoint wmismatches_from (i : nat) (cs : list case) : list nat :=
+  match cs with
+  | [] => []
+  | c :: t => if check_wcase c then wmismatches_from (S i) t else i :: wmismatches_from (S i) t
+  end.
+Definition wmismatches := wmismatches_from 0.
 
 Record lcase := { l_tree : yv; l_obs : obs }.
 Definition check_lcase (c : lcase) : bool := lres_eqb (load (l_tree c)) (l_obs c).
